@@ -36,6 +36,9 @@ use std::sync::Arc;
 use std::time::{Duration, Instant};
 
 static DIRSEQ: AtomicUsize = AtomicUsize::new(0);
+/// how often the peer did not receive what the sink's counters said was sent; after a handful the
+/// 200 ms grace is dropped (the discrepancy is established, waiting again adds nothing)
+static SHORT_DRAINS: AtomicUsize = AtomicUsize::new(0);
 
 fn temp_path(tag: &str) -> PathBuf {
     let base = std::env::var("VERIF_SOCK_DIR").unwrap_or_else(|_| "/verif/work/sock".to_string());
@@ -64,7 +67,11 @@ impl Peer {
                 Ok(n) => out.push(buf[..n].to_vec()),
                 Err(_) => {
                     // loopback delivery is synchronous; allow a short grace if fewer than expected arrived
-                    if out.len() >= want || t0.elapsed() > Duration::from_millis(200) {
+                    if out.len() >= want || SHORT_DRAINS.load(Ordering::Relaxed) > 20 {
+                        break;
+                    }
+                    if t0.elapsed() > Duration::from_millis(200) {
+                        SHORT_DRAINS.fetch_add(1, Ordering::Relaxed);
                         break;
                     }
                     std::thread::sleep(Duration::from_millis(1));
